@@ -1,5 +1,6 @@
 import Driver.Util
 import Capnp.Model.Rpc
+import Capnp.Model.Transport
 /-! ops of domain `rpc`: scripts of peer messages / application returns over `Model.Rpc` (inbound side) -/
 namespace Driver.Rpc
 open Capnp.Model.Rpc
@@ -115,6 +116,26 @@ def run : List String → String
       let evs := showEvents os
       (d', out ++ [op ++ ":" ++ res ++ ":" ++ (if evs = "" then "" else evs ++ " ") ++ showTables d'.s])) ({ s := init }, [])
     ";".intercalate (out ++ ["end::"])
+  | ["stream", _, n, plan] =>
+    match n.toNat? with
+    | none => "bad-op"
+    | some n =>
+      -- every frame is written with two Writes: the header, then the single segment
+      let outs : List Capnp.Model.Transport.W := (if plan = "-" then [] else plan.toList).map (fun c =>
+        if c = 'p' then .part else if c = 'z' then .zero else .full)
+      let rec go (fuel : Nat) (s : Capnp.Model.Transport.TS) (outs : List Capnp.Model.Transport.W) (res : String) : Capnp.Model.Transport.TS × String :=
+        match fuel with
+        | 0 => (s, res)
+        | fuel + 1 =>
+          if s.broken then go fuel s outs (res ++ "n") else
+          -- the Writes this frame consumes: up to the first failing one, at most two
+          let o1 := outs.headD .full
+          let (ws, rest) := if o1 ≠ .full then ([o1], outs.drop 1) else ([o1, (outs.drop 1).headD .full], outs.drop 2)
+          let (s', ok) := Capnp.Model.Transport.send true s ws
+          go fuel s' rest (res ++ (if ok then "o" else "e"))
+      let (s, res) := go n {} outs ""
+      let shape := String.join (s.log.map (fun x => match x with | .whole => "w" | .torn => "t"))
+      res ++ " " ++ shape
   | ["check", _, _] => "ok"        -- the oracles of C06-C09 hold on every history
   | _ => "bad-op"
 
